@@ -25,6 +25,16 @@ CHECKS = {
             '8 letters to length 7, binary to 18) against a run-length model of the documented helix rules.',
             'Residue order within a molecule is taken as ascending lowest node key; molecules larger than 3 residues and DSSP strings '
             'longer than the bound are outside the claim (the helix rules are local to a run and runs up to 18 are covered).', '§4 C17'),
+    'C12': ('A', 'explicit-state breadth-first search over edit histories on real Molecule objects with a lock-step reference model',
+            'model_checking',
+            'From three initial molecules (empty, dense keys, sparse unordered keys) every enabled operation of a 30-operation alphabet '
+            '(single/bulk add and remove incl. existing keys and generator arguments, interactions add/replace/remove incl. invalid ones, '
+            'copy, subgraph, edits of the copy, merge_molecule of two donors, Block.to_molecule, MergeAllMolecules, MergeChains) is applied '
+            'in every reachable abstract state up to depth 4 (thorough 6); states are de-duplicated on a canonical form that includes the '
+            'hidden highest-key cache; after every transition the real objects are compared with a dict/set/list model and the merge clauses '
+            'are checked relationally.',
+            'Histories longer than the depth bound and molecules with more than ~10 atoms are not explored; implicit node creation through '
+            'add_edge on an absent key and in-place mutation of shared parameter lists are outside the alphabet.', '§4 C12'),
 }
 
 NOT_YET = 'check not built yet in this session (planned, see DESIGN.md §4); no claim is made'
